@@ -400,6 +400,11 @@ def check(ctx):
                 continue
             if o.ident in escaping_ids:
                 chain = next(ch for (e, oid), (ob, ch) in esc.items() if oid == o.ident)
+                if o.guard_opaque and fn.name == '__post_init__' and fn.cls is not None:
+                    why = _refuted_by_templates(ctx, ex, fn.cls)
+                    if why:
+                        run.holds('C13.escape', fn.module.name, fn.qualname, o.node, f'{o.kind} ({o.exc}): {why}', node=o.node)
+                        continue
                 if o.guard_opaque:
                     # an explicit raise of a foreign error type under a condition that is outside the atom language (a
                     # relation between several values, e.g. `len(self.a) != len(self.b)`): the analysis can neither refute
@@ -471,6 +476,42 @@ def check(ctx):
 
     # ---- C13.rejects --------------------------------------------------------------------------------------------------------
     _rejects(ctx, ex, abs_)
+
+
+def _refuted_by_templates(ctx, ex: ExcAnalysis, cls: ClassInfo) -> Optional[str]:
+    """Relational consistency checks in `__post_init__` (`len(self.a) != len(self.b)`, `[x for x in self.a if x not in self.b]`):
+    every function that constructs the class is evaluated with the template evaluator (E4), which knows the *shape* of list
+    values (which repetition over which source, filtered or not); when at every construction the raising conditions
+    evaluate to false, the raise cannot fire."""
+    cache = getattr(ctx, '_post_init_probe', None)
+    if cache is None:
+        cache = ctx._post_init_probe = {}
+    if cls.fq in cache:
+        return cache[cls.fq]
+    from ..template import Evaluator, FALSE
+    sites = ex._ctor_sites(cls)
+    why = None
+    if sites:
+        conds = []
+        ok = True
+        for f in {f_.fq: f_ for f_, _c in sites}.values():
+            ev = Evaluator(ctx.prog, ctx.cg)
+            ev.probe_post_init = {cls.fq: []}
+            try:
+                ev.eval_entry(f)
+            except Exception:       # noqa: BLE001 - the evaluator is best effort here
+                ok = False
+                break
+            got = ev.probe_post_init[cls.fq]
+            if not getattr(ev, 'probe_hits', 0):
+                ok = False          # the evaluation never reached a construction: nothing was probed
+                break
+            conds.extend(got)
+        if ok and all(c == FALSE for c in conds):
+            why = (f'the consistency checks of {cls.name}.__post_init__ evaluate to false at all {len(sites)} construction sites '
+                   f'(template evaluator: the fields are repetitions over the same source)')
+    cache[cls.fq] = why
+    return why
 
 
 class _Resolved:
